@@ -117,6 +117,15 @@ WalkDirs(n, loc, op) ==
                    \o <<[e |-> "dir", n |-> d, loc |-> loc, def |-> dd, op |-> op]>>
   IN FoldLeft(LAMBDA acc, d : acc \o one(d), <<>>, ds) \o <<[e |-> "dirlist", ds |-> ds]>>
 
+\* the argument values of the directives of node n, without the directive events themselves:
+\* the directives of a fragment DEFINITION are part of the fragment, so the variables they
+\* use are uses by every operation that reaches the fragment (section 5.8.3 / 5.8.4)
+WalkDirArgsOnly(n, op) ==
+  LET ds == Kids(n, "dir")
+      one(d) == LET dd == IF Val(d, "name") \in DirNames THEN <<DD[Val(d, "name")]>> ELSE <<>>
+                IN WalkArgs(Kids(d, "arg"), IF dd # <<>> THEN dd[1].args ELSE <<>>, dd # <<>>, op)
+  IN FoldLeft(LAMBDA acc, d : acc \o one(d), <<>>, ds)
+
 RECURSIVE WalkSels(_, _, _, _, _), WalkSel(_, _, _, _, _)
 \* returns [ev, vis]: events and the set of fragments expanded so far in this walk
 WalkSels(D, sels, parent, op, vis) ==
@@ -142,7 +151,9 @@ WalkSel(D, s, parent, op, vis) ==
     LET name == Val(s, "name")
         fr   == FragByName(D, name)
         next == IF fr # <<>> THEN NameOrNone(Val(fr[1], "typecond")) ELSE ""
-        sub  == IF fr # <<>> /\ name \notin vis THEN WalkSels(D, Sels(fr[1]), next, op, vis \cup {name})
+        sub  == IF fr # <<>> /\ name \notin vis
+                THEN LET w == WalkSels(D, Sels(fr[1]), next, op, vis \cup {name})
+                     IN [ev |-> WalkDirArgsOnly(fr[1], op) \o w.ev, vis |-> w.vis]
                 ELSE [ev |-> <<>>, vis |-> vis]
     IN [ev |-> WalkDirs(s, "FRAGMENT_SPREAD", op) \o sub.ev
                \o <<[e |-> "spread", n |-> s, parent |-> parent, frag |-> fr, op |-> op]>>,
